@@ -39,7 +39,8 @@ def EndValid (s : St) (e : End) : Prop :=
 def ConnEndsValid (s : St) : Prop :=
   (∀ c ∈ s.conns, EndValid s c.src ∧ EndValid s c.dst) ∧ (∀ p ∈ s.pins, s.hasObst p.owner = true)
 
-/-- the model saw no use-after-free, re-entrant processing or internal assertion -/
+/-- the model saw no use-after-free and no internal assertion (the historic `reentry` /
+    `ctorBeforeRegister` faults are never raised since the upstream repairs) -/
 def NoFault (s : St) : Prop := s.faults = []
 
 end AdaptaVerif.Spec.Lifecycle
